@@ -33,3 +33,10 @@ Definition parse_document (cfg : pconfig) (text : str) : tok * footnotes * list 
 (* mistletoe.markdown(text, HtmlRenderer) with the given options *)
 Definition markdown_html (o : hopts) (process_html : bool) (text : str) : str :=
   let '(t, _, _) := parse_document (if process_html then cfg_html else cfg_html_nohtml) text in render_html o t.
+
+(* TocRenderer.toc: block_token.tokenize(lines) while the TOC renderer (an HtmlRenderer) is active; the property
+   returns the first token.  fn = the link reference definitions of the document parsed last (what inline
+   parsing consults). *)
+Definition toc_tokens (fn : footnotes) (lines : list str) : list tok :=
+  let '(es, _, _) := tokenize_block block_types_html (depth_fuel lines) lines 1 (mkPs true) in
+  make_tokens span_types_html false fn es.
